@@ -12,8 +12,10 @@ namespace own {
 
 using namespace Gudhi::persistence_matrix;
 
-template <Column_types ct, bool z2, int fam /*0 base, 1 boundary-type, 2 chain*/, bool rows, bool intr, bool remrows, bool mapc, bool swaps, bool comp, bool barcode, bool rep, bool vine>
+template <Column_types ct, bool z2, int fam /*0 base, 1 boundary-type, 2 chain*/, bool rows, bool intr, bool remrows, bool mapc, bool swaps, bool comp, bool barcode, bool rep, bool vine, int idx = 0 /*0 container, 1 position, 2 identifier*/>
 struct MOpt : Default_options<ct, z2> {
+  static const Column_indexation_types column_indexation_type = idx == 0 ? Column_indexation_types::CONTAINER : (idx == 1 ? Column_indexation_types::POSITION : Column_indexation_types::IDENTIFIER);
+  static const int indexing = idx;
   static const bool has_row_access = rows; static const bool has_intrusive_rows = intr; static const bool has_removable_rows = remrows;
   static const bool has_map_column_container = mapc; static const bool has_column_and_row_swaps = swaps; static const bool has_column_compression = comp;
   static const bool has_removable_columns = true; static const bool is_of_boundary_type = fam != 2;
@@ -59,16 +61,17 @@ struct Mat_exec {
         int c = can[op.arg(1) % can.size()];
         // chains: identifiers follow the cells; boundary-type matrices: the model keeps identifier == position (relabelled after swaps),
         // which is also the row identifier by which the API designates a face
-        int id = 0; if (FAM == 2) { for (auto& x : F.cells) id = std::max(id, x.id + 1); } else id = F.size();
+        constexpr bool OWNID = FAM == 2 || Opt::indexing == 2;  // identifier-indexed boundary-type matrices get identifiers with gaps (no swaps are recorded for them)
+        int id = 0; if (OWNID) { for (auto& x : F.cells) id = std::max(id, x.id + 1); if (FAM != 2) id += (int)((op.arg(1) >> 8) % 3); } else id = F.size();
         model::Filt_cell fc; fc.pool = c; fc.id = id; fc.dim = pool.cells[c].dim;
         for (auto& f : pool.cells[c].bd) fc.bd.push_back({F.id_of_pool(f.first), (unsigned)(f.second > 0 ? 1 : P - 1)});
         std::sort(fc.bd.begin(), fc.bd.end());
-        if constexpr (Z2) { std::vector<unsigned> bd; for (auto& f : fc.bd) bd.push_back((unsigned)f.first); if (FAM == 2) m.insert_boundary((unsigned)id, bd, fc.dim); else m.insert_boundary(bd, fc.dim); }
-        else { std::vector<std::pair<unsigned, unsigned>> bd; for (auto& f : fc.bd) bd.push_back({(unsigned)f.first, f.second}); if (FAM == 2) m.insert_boundary((unsigned)id, bd, fc.dim); else m.insert_boundary(bd, fc.dim); }
+        if constexpr (Z2) { std::vector<unsigned> bd; for (auto& f : fc.bd) bd.push_back((unsigned)f.first); if (OWNID) m.insert_boundary((unsigned)id, bd, fc.dim); else m.insert_boundary(bd, fc.dim); }
+        else { std::vector<std::pair<unsigned, unsigned>> bd; for (auto& f : fc.bd) bd.push_back({(unsigned)f.first, f.second}); if (OWNID) m.insert_boundary((unsigned)id, bd, fc.dim); else m.insert_boundary(bd, fc.dim); }
         F.cells.push_back(fc); ++s.ncols; return true;
       }
       if (op.name == "m_swap") {
-        if constexpr (Opt::has_vine_update && FAM != 2) {  // chains: an insertion after a vine swap is C06-KF6's subject, kept out of the lifetime histories
+        if constexpr (Opt::has_vine_update && FAM != 2 && Opt::indexing != 2) {  // chains: an insertion after a vine swap is C06-KF6's subject, kept out of the lifetime histories
           // vine swaps only in the pristine order of identifiers are recorded for boundary-type matrices (see C06-KF2): positions == ids is kept by relabelling
           std::vector<int> adm; for (int i = 0; i + 1 < F.size(); ++i) if (!F.is_face(i, i + 1)) adm.push_back(i);
           if (adm.empty()) return false; int i = adm[op.arg(1) % adm.size()];
@@ -105,7 +108,7 @@ struct Mat_exec {
       if constexpr (Opt::has_row_access && !Opt::has_column_compression) { int mr = max_row_inserted(s); for (int k = 0; k <= mr; ++k) { std::vector<std::pair<unsigned, unsigned>> e; try { for (const auto& en : m.get_row((unsigned)k)) { unsigned v; if constexpr (Z2) v = 1; else v = (unsigned)en.get_element(); e.push_back({en.get_column_index(), v}); } } catch (const std::out_of_range&) {} std::sort(e.begin(), e.end()); for (auto& x : e) { add(x.first); add(x.second); } } }
     } else {
       const int n = s.F.size(); unsigned maxrow = 0; for (auto& c : s.F.cells) maxrow = std::max(maxrow, (unsigned)c.id);
-      for (int k = 0; k < n; ++k) { unsigned ci; if constexpr (FAM == 2) ci = m.get_column_with_pivot((unsigned)s.F.cells[k].id); else ci = (unsigned)k; auto v = m.get_column(ci).get_content((int)maxrow + 1); for (auto x : v) add((uint64_t)x); add((uint64_t)m.get_column_dimension(ci)); }
+      for (int k = 0; k < n; ++k) { unsigned ci; if constexpr (FAM == 2) ci = m.get_column_with_pivot((unsigned)s.F.cells[k].id); else if constexpr (Opt::indexing == 2) ci = (unsigned)s.F.cells[k].id; else ci = (unsigned)k; auto v = m.get_column(ci).get_content((int)maxrow + 1); for (auto x : v) add((uint64_t)x); add((uint64_t)m.get_column_dimension(ci)); }
       // R-only boundary matrices compute the barcode once, when complete (documented): not read inside lifetime histories
       if constexpr (Opt::has_column_pairings && (FAM == 2 || Opt::has_vine_update || Opt::can_retrieve_representative_cycles)) { std::vector<std::tuple<int, unsigned, unsigned>> bars; for (const auto& b : m.get_current_barcode()) bars.emplace_back((int)b.dim, (unsigned)b.birth, (unsigned)b.death); std::sort(bars.begin(), bars.end()); for (auto& b : bars) { add((uint64_t)std::get<0>(b)); add(std::get<1>(b)); add(std::get<2>(b)); }
         // and against the independent reduction
